@@ -17,7 +17,7 @@ func init() {
 		ID:          "C02",
 		Explanation: "Decided: (sources) every suspension source recognised by the blocking analysis — send, receive, range over a channel, select without default, call through a function variable / interface method / computed callee, bodiless function — reaches markBlocking (or the callee registration that the fixpoint later resolves) on the path selected by its guard, and deferred calls are recorded wherever a call is; (fixpoint) PropagateAnalysis iterates function blocking to a fixpoint over all packages and then propagates return/continue blocking for every function, IsBlocking is conservative; (protocol) translateCall's blocking arm emits the complete resume protocol and blocking functions save/restore through $restore and the $f frame; (frame) every JS local is appended to localVars and both the restore destructuring and the saved frame are built from localVars; (flatten) Blocking implies Flattened for the whole visitor stack and the translator consults Flattened/Blocking in every construct that has a resumable form. NOT decided: that a flattened function computes what its direct form computes; escape boxing; ancestor-closure of the visitor stack bookkeeping for every AST.",
 		Assumptions: []string{"go/ast.Walk calls Visit(nil) after the children of a node whose visitor was non-nil"},
-		Rules:       []RuleFunc{ruleC02Sources, ruleC02Fixpoint, ruleC02Protocol, ruleC02Frame, ruleC02Flatten},
+		Rules:       []RuleFunc{ruleC02Sources, ruleC02Fixpoint, ruleC02Protocol, ruleC02Frame, ruleC02Flatten, ruleC02Escape},
 	})
 }
 
@@ -560,3 +560,74 @@ func ruleC02Flatten(c *ctx.Ctx, r *core.Reporter) {
 }
 
 var _ = types.Typ
+
+// ---------------------------------------------------------------------------
+// C02.escape: variables captured across a suspension point are boxed per loop iteration / function activation
+
+func ruleC02Escape(c *ctx.Ctx, r *core.Reporter) {
+	r.Begin("C02.escape", "F-MUST", "captured variables are boxed where their scope is (re)entered: every loop body and every blocking function body calls handleEscapingVars, and the escape search stops at function literals and at loop *bodies* only, so that loop-header variables are found from the enclosing scope", 7)
+	v := c.FuncDecl(analysisPkg, "escapeAnalysis.Visit")
+	if v == nil {
+		r.Undecided("escapeAnalysis.Visit", analysisPkg, "not found")
+		return
+	}
+	// bottom scopes: exactly Scopes[n.Type] for FuncLit and Scopes[n.Body] for loops
+	var keys []string
+	ast.Inspect(v.Body, func(n ast.Node) bool {
+		as, ok := n.(*ast.AssignStmt)
+		if !ok || len(as.Lhs) != 1 {
+			return true
+		}
+		if ix, ok := as.Lhs[0].(*ast.IndexExpr); ok && strings.HasSuffix(exprStr(ix.X), ".bottomScopes") {
+			conds := enclosingConds(v.Body, as.Pos())
+			lab := ""
+			for _, cd := range conds {
+				if strings.HasPrefix(cd, "case ") {
+					lab = cd
+				}
+			}
+			inner := exprStr(ix.Index)
+			keys = append(keys, lab+" -> "+inner)
+			switch {
+			case strings.Contains(lab, "*ast.FuncLit"):
+				r.Check(strings.HasSuffix(inner, ".Scopes[n.Type]"), "bottom:FuncLit", c.Pos(as.Pos()), "a function literal cuts off the search at the scope of its signature (parameters and everything inside are the literal's own): "+inner)
+			case strings.Contains(lab, "*ast.ForStmt") || strings.Contains(lab, "*ast.RangeStmt"):
+				for _, k := range strings.Split(strings.TrimPrefix(lab, "case "), ",") {
+					r.Check(strings.HasSuffix(inner, ".Scopes[n.Body]"), "bottom:"+k, c.Pos(as.Pos()), fmt.Sprintf("a loop cuts off the search at the scope of its BODY (%s): variables of the loop header live in the loop statement's own scope and are boxed by the enclosing analysis, variables of the body are boxed when the loop body is translated", inner))
+				}
+			default:
+				r.Violation("bottom:other:"+lab, c.Pos(as.Pos()), "an additional construct cuts off the escape search: "+lab+" -> "+inner)
+			}
+		}
+		return true
+	})
+	if len(keys) < 3 {
+		r.Undecided("bottom:arms", c.Pos(v.Pos()), fmt.Sprintf("expected bottom scopes for FuncLit, ForStmt and RangeStmt; found %v", keys))
+	}
+	// address-of identifiers and function literals start a collector
+	src := squash(nodeString(c, v.Body))
+	r.Check(strings.Contains(src, "ifn.Op==token.AND{if_,ok:=n.X.(*ast.Ident);ok{return&escapingObjectCollector{v}}}"), "collect:address-of", c.Pos(v.Pos()), "taking the address of a variable marks it as escaping")
+	if arm := armOf(v, "*ast.FuncLit"); arm != nil {
+		r.Check(strings.Contains(nodeString(c, arm), "return &escapingObjectCollector{v}"), "collect:closure", c.Pos(arm.Pos()), "every variable referenced inside a function literal is examined")
+	}
+	// collector walks scopes upward to topScope
+	if col := c.FuncDecl(analysisPkg, "escapingObjectCollector.Visit"); col != nil {
+		s := squash(nodeString(c, col.Body))
+		r.Check(strings.Contains(s, "fors:=obj.Parent();s!=nil;s=s.Parent(){ifs==v.analysis.topScope{") && strings.Contains(s, "ifv.analysis.bottomScopes[s]{break}"), "collect:scope-walk", c.Pos(col.Pos()), "a referenced variable escapes iff its declaring scope is reached from the analysed node's scope without crossing a bottom scope")
+	}
+	// users
+	if fd := c.FuncDecl("compiler", "funcContext.translateLoopingStmt"); fd != nil {
+		s := squash(nodeString(c, fd.Body))
+		iH := strings.Index(s, "fc.handleEscapingVars(body)")
+		iB := strings.Index(s, "fc.translateStmtList(body.List)")
+		r.Check(iH >= 0 && iB > iH && strings.Contains(s, "prevEV:=fc.pkgCtx.escapingVars") && strings.Contains(s, "fc.pkgCtx.escapingVars=prevEV"), "use:loop-body", c.Pos(fd.Pos()), "each loop iteration re-boxes the body's captured variables before the body runs and the set is restored afterwards")
+	}
+	if fd := c.FuncDecl("compiler", "funcContext.translateFunctionBody"); fd != nil {
+		s := squash(nodeString(c, fd.Body))
+		r.Check(strings.Contains(s, "iffc.IsBlocking(){fc.pkgCtx.Scopes[body]=fc.pkgCtx.Scopes[typ]fc.handleEscapingVars(body)}"), "use:blocking-function", c.Pos(fd.Pos()), "a blocking function boxes its captured parameters and locals on entry (they must survive suspension together with the closures that captured them)")
+	}
+	if fd := c.FuncDecl("compiler", "funcContext.handleEscapingVars"); fd != nil {
+		s := squash(nodeString(c, fd.Body))
+		r.Check(strings.Contains(s, "analysis.EscapingObjects(n,fc.pkgCtx.Info.Info)") && strings.Contains(s, "fc.pkgCtx.escapingVars[obj]=true") && strings.Contains(s, `fc.Printf("%s=[%s];",name,name)`), "use:boxing", c.Pos(fd.Pos()), "every escaping object is recorded and boxed as `name = [name]`")
+	}
+}
